@@ -40,6 +40,17 @@ def main(argv):
         cases.append(c)
         labels.append('valid')
     io, mo = BC.run_builds(cases, timeout=3000, twice=True)
+    # a Dezyne file name as the operating system hands it out when it is not valid UTF-8 (surrogate-escaped byte): still a valid
+    # input - the build returns its eight files (their text cannot be hashed, which nobody asks for here)
+    from lib import run_impl
+    from checks import shellrun as SR2
+    sc = SR2.mixed_semantics_cases(('SM',))[0]
+    sc = {'file': sc['file'], 'cfg': dict(sc['cfg'], file='models/Caf\udce9.dzn')}
+    sr = run_impl('build_worker', {'cases': [{'op': 'count_files', 'file': sc['file'], 'cfg': sc['cfg']}]})['results'][0]
+    rep.case({'cfg': sc['cfg'], 'file': sc['file']}, shape='valid/surrogate-escaped file name')
+    if 'ok' not in sr or sr['ok'][0] != 0 or sr['ok'][1] != 8:
+        rep.violation(f'a valid model and configuration whose Dezyne file name holds a surrogate-escaped byte does not build: {str(sr)[:300]}',
+                      {'file': sc['file'], 'configuration': {k: (v if k != 'file' else 'models/Caf\\udce9.dzn') for k, v in sc['cfg'].items()}})
     nv = 0
     for c, lab, i, m in zip(cases, labels, io, mo):
         rep.case({'cfg': c['cfg'], 'file': c['file']}, shape=f'{lab.split(":")[0]}/{i[0]}')
